@@ -108,8 +108,10 @@ def run_link(item, tl, mutate=None):
         return []
     nsym = n // m["bps"]
 
+    mdt = getattr(torch, item.get("msg_dtype", "float32"))
+
     def run(ctx):
-        msg = fresh_bits("m", (1, k))
+        msg = fresh_bits("m", (1, k), mdt)
         if item["channel"] == "flips":
             holder["e"] = fresh_bits("e", (1, n))
         if item["channel"] == "displace":
@@ -174,7 +176,7 @@ def replay_link(item, w):
                 except Exception:
                     return True, None
             return False, None
-        msg = real_bits(w["m"], (1, k))
+        msg = real_bits(w["m"], (1, k)).to(getattr(torch, item.get("msg_dtype", "float32")))
         if "e" in w:
             holder["e"] = real_bits(w["e"], (1, n))
         if "d" in w:
@@ -213,7 +215,7 @@ def all_items():
 
     def add(code, decoder, modem, channel, **kw):
         it = dict(code=code, decoder=decoder, modem=modem, channel=channel, **kw)
-        it["config"] = f"{code}+{decoder} | {modem} | {channel}" + (f" noise_var={kw['noise_var']}" if "noise_var" in kw else "") + (f" {kw['blocks']} blocks per row" if "blocks" in kw else "")
+        it["config"] = f"{code}+{decoder} | {modem} | {channel}" + (f" noise_var={kw['noise_var']}" if "noise_var" in kw else "") + (f" {kw['blocks']} blocks per row" if "blocks" in kw else "") + (f" message dtype {kw['msg_dtype']}" if "msg_dtype" in kw else "")
         items.append(it)
     hard_modems8 = ["BPSK", "QPSK(normalize=True)", "QAM16(gray=True,normalize=True)", "PAM4(gray=True,normalize=True)", "PSK4(gray=True)", "QAM4(gray=False,normalize=False)"]
     for md in hard_modems8:
@@ -233,6 +235,11 @@ def all_items():
             add("Polar(8,4)", "sc", md, "ideal", noise_var=nv)
             if md != "QAM16(gray=True,normalize=True)":
                 add("LDPC(6,3)", "minsum", md, "ideal", noise_var=nv)
+    # integer / bool message tensors (randint-style data) through hard and soft links; low-confidence LLRs (|LLR| < 1) on the soft ones
+    add("ExtHamming(8,4)", "ml", "QPSK(normalize=True)", "ideal", msg_dtype="int64")
+    add("SPC(3)", "wagner", "BPSK", "ideal", noise_var=8.0, msg_dtype="int64")
+    add("SPC(3)", "wagner", "PSK4(gray=True)", "ideal", noise_var=8.0)
+    add("LDPC(6,3)", "minsum", "BPSK", "ideal", noise_var=8.0, msg_dtype="int64")
     # several code blocks in one row, including code lengths that are not a multiple of the symbol size
     add("Hamming(7,4)", "ml", "QPSK(normalize=True)", "ideal", blocks=2)
     add("ExtHamming(8,4)", "ml", "QPSK(normalize=True)", "flips", blocks=2)
